@@ -30,10 +30,15 @@ def falsify(ctx, case: Dict) -> bool:
         with core.time_limit(40):
             ind = X.build(spec, X.mk_rows(init), cfg)
             ind.calculate()
-            for ch in chunks:
+            for j, ch in enumerate(chunks):
+                if case.get("rewrap") is not None and j == case["rewrap"]:
+                    # a fresh object of the same configuration takes over the calculated candles
+                    ind = X.build(spec, ind.candles, cfg)
                 ind.append(X.mk_rows(ch))
     except Exception as e:  # noqa
         bad = {"relation": "raises", "exc": type(e).__name__}
+        if case.get("rewrap") is not None:
+            bad["rewrapped"] = True
     if bad is None:
         seen_field: Dict[str, int] = {}
         for i, c in enumerate(ind.candles):
@@ -74,6 +79,8 @@ def run(ctx: core.Ctx) -> int:
         regime = rng.choice(DEGENERATE)
         c = E.gen_case(rng, ctx, kinds, allow_ha=False, regimes=[regime], inputs_base=("close", "close", "high", "volume", "src", "dd.x"))
         c["meta"]["regime"] = regime
+        if not c["cfg"] and len(c["chunks"]) >= 2 and rng.random() < 0.25:
+            c["rewrap"] = rng.randrange(1, len(c["chunks"]))
         cases.append(c)
     for i, c in enumerate(cases):
         ctx.count("eval_falsifier")
